@@ -75,7 +75,7 @@ class Result:
 
 
 _CHECK_RE = re.compile(
-    r"^Check \d+: (?P<id>\S+)\n\s+- Status: (?P<st>\w+)\n\s+- Description: \"(?P<desc>.*)\"\n(?:\s+- Location: (?P<loc>.*)\n)?",
+    r"^Check \d+: (?P<id>.+)\n\s+- Status: (?P<st>\w+)\n\s+- Description: \"(?P<desc>.*)\"\n(?:\s+- Location: (?P<loc>.*)\n)?",
     re.M)
 
 
